@@ -74,6 +74,8 @@ type Term struct {
 	Const bool
 	C     uint64 // BV constant (W<=64) value
 	B     bool   // Bool constant value
+	Op    string  // "and", "=", "not" for structured boolean terms (used for cheap path pruning)
+	Args  []*Term
 }
 
 func (t *Term) String() string { return t.S }
@@ -85,6 +87,7 @@ type Ctx struct {
 	decls  map[string]string // name -> full declaration / definition line
 	order  []string
 	deps   map[string][]string // definition name -> names used
+	index  map[string]int
 }
 
 func NewCtx() *Ctx {
@@ -187,6 +190,30 @@ func symbolsOf(s string) []string {
 	return out
 }
 
+// Used returns the set of declared symbols (transitively) used by the assertion strings.
+func (c *Ctx) Used(asserts []string) map[string]bool {
+	c.mu.Lock()
+	defer c.mu.Unlock()
+	need := map[string]bool{}
+	var work []string
+	for _, a := range asserts {
+		work = append(work, symbolsOf(a)...)
+	}
+	for len(work) > 0 {
+		n := work[len(work)-1]
+		work = work[:len(work)-1]
+		if need[n] {
+			continue
+		}
+		if _, ok := c.decls[n]; !ok {
+			continue
+		}
+		need[n] = true
+		work = append(work, c.deps[n]...)
+	}
+	return need
+}
+
 // Prelude returns the declarations needed by the given assertion strings, in creation order.
 func (c *Ctx) Prelude(asserts []string) string {
 	c.mu.Lock()
@@ -208,12 +235,21 @@ func (c *Ctx) Prelude(asserts []string) string {
 		need[n] = true
 		work = append(work, c.deps[n]...)
 	}
-	var b strings.Builder
-	for _, n := range c.order {
-		if need[n] {
-			b.WriteString(c.decls[n])
-			b.WriteByte('\n')
+	if c.index == nil || len(c.index) != len(c.order) {
+		c.index = make(map[string]int, len(c.order))
+		for i, n := range c.order {
+			c.index[n] = i
 		}
+	}
+	names := make([]string, 0, len(need))
+	for n := range need {
+		names = append(names, n)
+	}
+	sort.Slice(names, func(i, j int) bool { return c.index[names[i]] < c.index[names[j]] })
+	var b strings.Builder
+	for _, n := range names {
+		b.WriteString(c.decls[n])
+		b.WriteByte('\n')
 	}
 	return b.String()
 }
@@ -270,14 +306,20 @@ func (c *Ctx) Not(a *Term) *Term {
 	if a.Const {
 		return BoolConst(!a.B)
 	}
+	if a.Op == "not" && len(a.Args) == 1 {
+		return a.Args[0]
+	}
 	if strings.HasPrefix(a.S, "(not ") {
 		return &Term{S: a.S[5 : len(a.S)-1], Sort: SBool}
 	}
-	return c.mk("(not "+a.S+")", SBool)
+	r := c.mk("(not "+a.S+")", SBool)
+	r.Op, r.Args = "not", []*Term{a}
+	return r
 }
 
 func (c *Ctx) And(ts ...*Term) *Term {
 	var parts []string
+	var args []*Term
 	seen := map[string]bool{}
 	for _, t := range ts {
 		if t.Const {
@@ -289,15 +331,18 @@ func (c *Ctx) And(ts ...*Term) *Term {
 		if !seen[t.S] {
 			seen[t.S] = true
 			parts = append(parts, t.S)
+			args = append(args, t)
 		}
 	}
 	switch len(parts) {
 	case 0:
 		return True
 	case 1:
-		return &Term{S: parts[0], Sort: SBool}
+		return args[0]
 	}
-	return c.mk("(and "+strings.Join(parts, " ")+")", SBool)
+	r := c.mk("(and "+strings.Join(parts, " ")+")", SBool)
+	r.Op, r.Args = "and", args
+	return r
 }
 
 func (c *Ctx) Or(ts ...*Term) *Term {
@@ -388,7 +433,9 @@ func (c *Ctx) Eq(a, b *Term) *Term {
 			return c.Not(a)
 		}
 	}
-	return c.mk("(= "+a.S+" "+b.S+")", SBool)
+	r := c.mk("(= "+a.S+" "+b.S+")", SBool)
+	r.Op, r.Args = "=", []*Term{a, b}
+	return r
 }
 
 // ---- bit-vector ops
